@@ -8,10 +8,27 @@ import vlib
 
 PROPERTIES = ["C19"]
 
-# deviations of the current tree that the model reproduces (spec/EvmTx.tla DEVS); each is listed in
-# known_findings.json and must be re-found by TLC on the model (vacuity guard) and on the real code
-DEVS = {"DEV_SplitBalanceCheck": ("PropAdmission", "MC_EvmTx_dev1.cfg"),
-        "DEV_RevertedFrameKeepsPrecompileWrites": ("PropFrame", "MC_EvmTx_dev2.cfg")}
+# Deviations (spec/EvmTx.tla DEVS): name -> (action property TLC must refute with the deviation on, cfg).
+# The ACTIVE ones are those named by a C19 entry of known_findings.json ("dev" field) that is not `fixed`:
+# moving an entry from "findings" to "fixed" is the only switch needed when a defect is repaired - the
+# generation model, the trace header (strict lane) and the vacuity runs all follow.
+DEV_RUNS = {"DEV_SplitBalanceCheck": ("PropAdmission", "MC_EvmTx_dev1.cfg"),
+            "DEV_RevertedFrameKeepsPrecompileWrites": ("PropFrame", "MC_EvmTx_dev2.cfg"),
+            "DEV_BatchCreateResetsNonce": ("PropAccounting", "MC_EvmTx_dev3.cfg")}
+
+
+def active_devs():
+    return sorted({f["dev"] for f in vlib.known_findings().get("findings", []) if f.get("property") == "C19" and f.get("dev") in DEV_RUNS})
+
+
+def _stage_gen(d, devs):
+    """generation config with the active deviation set"""
+    p = os.path.join(d, "MC_EvmTx_gen.cfg")
+    c = open(p).read()
+    import re
+    c2 = re.sub(r"(?m)^  DEVS = .*$", "  DEVS = {" + ", ".join('"%s"' % x for x in devs) + "}", c)
+    open(p, "w").write(c2)
+
 
 WORLDS = {
     # EIP-1559 base fee on, no min gas price, default multiplier, finite block gas, contract gateway
@@ -64,7 +81,7 @@ def _run(tier, seed, harness, d):
     res = {"family": "evmtx", "mc": [], "tags": [], "samples": [], "tag_universe": TAG_UNIVERSE,
            "assumptions": ["abci-mode: signed Ethereum txs through app.DeliverTx of a full ExocoreApp, real block boundaries",
                            "EVM opcode semantics not modelled: gas consumed by the EVM and the vm-error flag are logged inputs",
-                           "London rules always on; one MsgEthereumTx per Cosmos tx; CheckTx/mempool not exercised",
+                           "London rules always on; Cosmos txs with one or two MsgEthereumTx; mempool admission observed through the ante handler in CheckTx mode on the deliver state (real CheckTx state not exercised)",
                            "base fee of each block and fee collector balance at block boundaries are logged inputs"]}
     # 1. exhaustive model check (pure TLA+ numbers: no override in this directory)
     dm = os.path.join(d, "mc")
@@ -79,7 +96,10 @@ def _run(tier, seed, harness, d):
             raise vlib.Infra(f"model counterexample in {cfg}: {m['violated']} (lead, not a verdict)\n" + m["out"][-3000:])
         res["mc"].append(m)
     # vacuity guard for the known findings: with the deviation switched on TLC must refute the clause
-    for dev, (prop, cfg) in DEVS.items():
+    devs = active_devs()
+    res["deviations"] = devs
+    for dev in devs:
+        prop, cfg = DEV_RUNS[dev]
         if not os.path.exists(os.path.join(dm, cfg)):
             raise vlib.Infra(f"missing {cfg}")
         m = vlib.tlc_mc(dm, "MC_EvmTx_q.tla", cfg, timeout=600)
@@ -95,6 +115,7 @@ def _run(tier, seed, harness, d):
         dg = os.path.join(d, "gen-" + wname)
         os.makedirs(dg)
         vlib.stage_specs(dg, with_override=False)
+        _stage_gen(dg, devs)
         behs = vlib.tlc_simulate(dg, "MC_EvmTx_q.tla", "MC_EvmTx_gen.cfg", num=nbeh, depth=16, seed=seed * 100 + wi + 1000)
         chunk = 100
         for ci in range(0, len(behs), chunk):
@@ -103,7 +124,7 @@ def _run(tier, seed, harness, d):
             vlib.stage_specs(dt, with_override=True)
             cpath = os.path.join(dt, "beh.ndjson")
             open(cpath, "w").write("\n".join(behs[ci:ci + chunk]) + "\n")
-            p = vlib.sh([harness, "evmtx", "-in", cpath, "-out", os.path.join(dt, "trace.ndjson"), "-seed", str(seed * 1000 + ci), "-cfg", json.dumps(w)], timeout=900, check=False)
+            p = vlib.sh([harness, "evmtx", "-in", cpath, "-out", os.path.join(dt, "trace.ndjson"), "-seed", str(seed * 1000 + ci), "-cfg", json.dumps(dict(w, devs=devs))], timeout=900, check=False)
             if p.returncode != 0:
                 raise vlib.Infra("harness evmtx failed:\n" + p.stdout[-3000:])
             lines = [json.loads(x) for x in open(os.path.join(dt, "trace.ndjson")) if x.strip()]
@@ -121,6 +142,16 @@ def _run(tier, seed, harness, d):
                 if ln["ev"] == "Tx":
                     counts[_classify(ln, lines[li0 - 1])] += 1
                     distinct.add(json.dumps([ln["a"]["k"], ln["o"]], sort_keys=True))
+                elif ln["ev"] == "Batch":
+                    o = ln["o"]
+                    if o["code"] == 0:
+                        cls = "ok:" + "".join("F" if f else "S" for f in o["vmfails"])     # per message: S success, F vm error
+                    elif lines[li0 - 1]["st"]["nonce"] != ln["st"]["nonce"]:
+                        cls = "included-failed%d" % o["code"]
+                    else:
+                        cls = "rej%d" % o["code"]
+                    counts["Batch:" + cls] += 1
+                    distinct.add(json.dumps([ln["a"]["ks"], o["code"], o["vmfails"]], sort_keys=True))
                 elif ln["ev"] == "NewBlock":
                     counts["NewBlock"] += 1
             for t in tags:
@@ -131,7 +162,7 @@ def _run(tier, seed, harness, d):
                 t["behaviour"] = json.loads(behs[ci + b])
                 t["step"] = li - starts[b]
                 t["hseed"] = seed * 1000 + ci
-                t["observed"] = {"ev": ln["ev"], "k": ln["a"].get("k"), "t": ln["a"].get("t"), "o": ln.get("o"), "r": ln.get("r"),
+                t["observed"] = {"ev": ln["ev"], "k": ln["a"].get("k") or ln["a"].get("ks"), "t": ln["a"].get("t"), "ts": ln["a"].get("ts"), "o": ln.get("o"), "r": ln.get("r"),
                                  "pre": {k: v for k, v in lines[li - 1]["st"].items()}, "post": ln["st"]}
                 res["tags"].append(t)
             total_beh += cur + 1
@@ -155,6 +186,20 @@ def finding_matches(f, t):
     ob = t.get("observed") or {}
     tx, o, pre = ob.get("t"), ob.get("o"), ob.get("pre")
     m = f.get("match", {})
+    if m.get("kind") == "batch-create-nonce":
+        # a multi-message Cosmos tx, executed (code 0); the observed sequences are exactly what "every successful
+        # creation sets the sender's nonce to its own nonce + 1" yields, and that differs from one increment per message
+        ts, post = ob.get("ts"), ob.get("post")
+        if ob.get("ev") != "Batch" or not ts or not o or o.get("code") != 0 or not pre or not post:
+            return False
+        good = dict(pre["nonce"])
+        for x in ts:
+            good[x["s"]] += 1          # the ante handler advances the sequence once per message, up front
+        bad = dict(good)
+        for i, x in enumerate(ts):     # then every successful creation overwrites it with its own nonce + 1
+            if x["to"] == "new" and not o["vmfails"][i]:
+                bad[x["s"]] = int(x["nonce"]) + 1
+        return post["nonce"] == bad and bad != good
     if not tx or not o or not pre:
         return False
     if m.get("kind") == "split-balance":
@@ -177,10 +222,17 @@ def finding_matches(f, t):
         failed_blockgas = o["code"] == 11 and "block gas meter" in ((ob.get("r") or {}).get("log") or "")
         return others_ok and val <= bal and fee <= bal and val + fee > bal and (failed_inside or failed_blockgas)
     if m.get("kind") == "reverted-frame-deposit":
-        # wrapper fixture: inner gateway frame reverted (slot 0 of w = 1), tx succeeded, staking total moved by the deposit
+        # wrapper fixture: inner gateway frame reverted (slot 0 of w = 1) after a successful precompile call
+        # (slot 1 = 2), tx succeeded, and the restaking state moved exactly as the reverted operation would have
         post = ob.get("post") or {}
-        return (tx["to"] == "w" and tx["mode"] == "irev" and o["code"] == 0 and not o["vmfail"] and post.get("stor", {}).get("w") == "1"
-                and int(post["dep"]) - int(pre["dep"]) == int(tx["amt"]))
+        if not (tx["to"] == "w" and tx["mode"] == "irev" and o["code"] == 0 and not o["vmfail"]
+                and post.get("stor", {}).get("w") == "1" and post.get("stor", {}).get("w1") == "2"):
+            return False
+        s_, amt = tx["s"], int(tx["amt"])
+        d = lambda k: int(post[k]) - int(pre[k]) if k == "dep" else int(post[k][s_]) - int(pre[k][s_])
+        others = all(post[k][a] == pre[k][a] for k in ("wd", "dl") for a in pre[k] if a != s_)
+        exp = {"dep": (amt, amt, 0), "dlg": (0, -amt, amt), "und": (0, 0, -amt)}[tx.get("op", "dep")]
+        return others and (d("dep"), d("wd"), d("dl")) == exp
     return False
 
 
@@ -192,7 +244,7 @@ def replay(path):
         w = WORLDS[j["world"]]
         vlib.stage_specs(d, with_override=True)
         open(os.path.join(d, "beh.ndjson"), "w").write(json.dumps(j["behaviour"]) + "\n")
-        vlib.sh([harness, "evmtx", "-in", os.path.join(d, "beh.ndjson"), "-out", os.path.join(d, "trace.ndjson"), "-seed", "1", "-cfg", json.dumps(w)], timeout=600)
+        vlib.sh([harness, "evmtx", "-in", os.path.join(d, "beh.ndjson"), "-out", os.path.join(d, "trace.ndjson"), "-seed", "1", "-cfg", json.dumps(dict(w, devs=active_devs()))], timeout=600)
         lines = [json.loads(x) for x in open(os.path.join(d, "trace.ndjson")) if x.strip()]
         tags, _ = vlib.tlc_trace(d, "Trace_EvmTx.tla", "Trace_EvmTx.cfg")
         for t in tags:
